@@ -49,8 +49,21 @@ def machine_for(prop):
 # ------------------------------------------------------------------ worker ----
 def _work(prop, batch_seed, start, count, per_run_timeout):
     """Execute runs start..start+count-1; return aggregated stats (+ first violation)."""
-    faulthandler.dump_traceback_later(per_run_timeout * max(1, count), exit=True)
+    faulthandler.dump_traceback_later(per_run_timeout * max(1, count) + 30, exit=True)
     try:
+        m = machine_for(prop)
+        if getattr(m, "ISOLATE", False) == "chunk":
+            # the whole chunk runs in ONE forked child of this (never-used, hence pristine) worker: runs of a chunk
+            # share a process like the calls of a user's session do; chunks cannot influence each other
+            return core.run_isolated(_work_chunk, prop, batch_seed, start, count, True,
+                                     timeout=per_run_timeout * max(1, count))
+        return _work_chunk(prop, batch_seed, start, count, False)
+    finally:
+        faulthandler.cancel_dump_traceback_later()
+
+
+def _work_chunk(prop, batch_seed, start, count, shared_process):
+    if True:
         m = machine_for(prop)
         agg = {"runs": 0, "ops": 0, "probes": Counter(), "faults": Counter(), "judged": Counter(),
                "sigs": set(), "nontrivial": 0, "known": [], "sim_seconds": 0.0, "violation": None,
@@ -60,7 +73,7 @@ def _work(prop, batch_seed, start, count, per_run_timeout):
             triple = m.generate(seed, prop)
             triple["run_index"] = i
             triple["batch_seed"] = batch_seed
-            res = core.execute_machine(m, triple, prop)
+            res = core._execute_one(m, copy.deepcopy(triple), prop) if shared_process else core.execute_machine(m, triple, prop)
             agg["runs"] += 1
             agg["ops"] += res["ops"]
             agg["probes"].update(res["probes"])
@@ -78,21 +91,42 @@ def _work(prop, batch_seed, start, count, per_run_timeout):
                                        "ops": triple["ops"][:6], "config": triple.get("config")})
             if res["violation"]:
                 agg["violation"] = {"triple": triple, "violation": res["violation"], "digest": res["digest"]}
+                if shared_process:                  # the earlier runs of this process, should the violation depend on them
+                    hist = []
+                    for j in range(start, i):
+                        t = m.generate(core.run_seed(prop, batch_seed, j), prop)
+                        t["run_index"], t["batch_seed"] = j, batch_seed
+                        hist.append(t)
+                    agg["violation"]["history"] = hist
                 break
         agg["sigs"] = sorted(agg["sigs"])
         agg["probes"], agg["faults"], agg["judged"] = dict(agg["probes"]), dict(agg["faults"]), dict(agg["judged"])
         return agg
-    finally:
-        faulthandler.cancel_dump_traceback_later()
 
 
 def _warm(prop):
+    """Bring this process to the state every chunk / isolated run / replay starts from: modules imported, kernels
+    compiled and - for the machines that fork from here - a fixed handful of runs executed, so that lazily imported
+    plug-ins and first-call caches of the dependencies are paid once instead of in every child.  The same warm-up
+    precedes a replay, so 'pristine' means the same thing when searching, minimising and replaying."""
     m = machine_for(prop)
     w = getattr(m, "warm", None)
     if w:
         w(prop)
     else:
         m.hv()
+    if getattr(m, "ISOLATE", False) == "chunk":
+        import contextlib
+        import io
+        for i in range(8):
+            try:
+                with contextlib.redirect_stdout(io.StringIO()):
+                    m.execute(m.generate(core.run_seed(prop, "warm", i), prop), prop)
+            except Exception:                                   # noqa
+                pass
+    import gc
+    gc.collect()
+    gc.freeze()             # what exists now is never garbage: collections in the children only look at what they create
 
 
 # ------------------------------------------------------------------ replay ----
@@ -100,7 +134,7 @@ def replay_file(prop, path, quiet=False):
     with open(path) as f:
         rep = json.load(f)
     m = machine_for(prop)
-    res = core.execute_machine(m, rep["triple"], prop)
+    res = core.execute_machine(m, rep["triple"], prop, history=rep.get("history") or None)
     v = res["violation"]
     exp = rep.get("expect", {})
     if v:
@@ -194,6 +228,7 @@ def main(argv=None):
         return 2
     if a.replay:
         try:
+            _warm(prop)
             code, same, _ = replay_file(prop, a.replay)
         except Exception:
             traceback.print_exc()
@@ -293,12 +328,23 @@ def main(argv=None):
     # ---- violation: minimise, write replay, verify replay in a fresh interpreter
     triple, viol = first_violation["triple"], first_violation["violation"]
     execs = 0
+    history = None
+    if first_violation.get("history"):
+        # found in a process shared with earlier runs of its chunk: does the run fail on its own, from a pristine state?
+        try:
+            alone = core.execute_machine(m, triple, prop)["violation"]
+        except Exception:
+            alone = None
+        if not alone or alone["oracle"] != viol["oracle"]:
+            history = first_violation["history"]
+            print(f"note: run {triple.get('run_index')} fails only after earlier runs in the same process; "
+                  f"the replay carries that history ({len(history)} runs before minimisation)")
     if not a.no_minimise:
         try:
-            triple, execs = core.minimise(m, prop, triple, viol)
+            triple, execs = core.minimise(m, prop, triple, viol, history=history)
         except Exception:
             traceback.print_exc()
-    res = core.execute_machine(m, triple, prop)
+    res = core.execute_machine(m, triple, prop, history=history)
     if not res["violation"]:
         print("HARNESS-ERROR minimised triple does not fail")
         return 2
@@ -306,7 +352,7 @@ def main(argv=None):
     path = os.path.join(VERIF, "replays", f"{prop}-{triple.get('run_seed', 0)}.json")
     line = f"VIOLATION property={prop} replay={path}"
     with open(path, "w") as f:
-        json.dump({"property": prop, "machine": MACHINE_OF[prop], "triple": triple,
+        json.dump({"property": prop, "machine": MACHINE_OF[prop], "triple": triple, "history": history or [],
                    "expect": {"line": line, "oracle": res["violation"]["oracle"],
                               "detail": res["violation"]["detail"], "key": res["violation"]["key"],
                               "event_log_sha256": res["digest"]},
@@ -322,7 +368,8 @@ def main(argv=None):
     print(f"  oracle={res['violation']['oracle']}")
     print(f"  detail={res['violation']['detail']}")
     print(f"  key={json.dumps(res['violation']['key'], default=core._default)} run_index={triple.get('run_index')} "
-          f"minimised with {execs} executions to {len(triple['ops'])} ops")
+          f"minimised with {execs} executions to {len(triple['ops'])} ops"
+          + (f" after a history of {len(history)} earlier run(s)" if history else ""))
     return 1
 
 
